@@ -55,6 +55,10 @@ class Convert(HarnessBase):
                    orig_value_after_copy=x.value, orig_unit_after_copy=x.unit, copy_is_new=y is not x)
         back = y.to(self.u1)
         rec.update(back_value=back.value, back_unit=back.unit)
+        # the returned copy is the caller's: mutating it in place must not affect a later conversion of the original
+        y.to(self.u3, inplace=True)
+        again = x.to(self.u2)
+        rec.update(again_value=again.value, again_unit=again.unit, orig_value_after_all=x.value, orig_unit_after_all=x.unit)
         v2, z = _mk(env, self.kind, 'v', self.u1)
         r = z.to(self.u2, inplace=True)
         rec.update(inplace_value=z.value, inplace_unit=z.unit, inplace_returns_self=r is z)
@@ -86,6 +90,10 @@ class Convert(HarnessBase):
             eq('conv.round_trip', rec['back_value'], v, tol=1e-12),
             holds('conv.round_trip_unit', rec['back_unit'] == self.u1),
             holds('conv.inplace_returns_self', rec['inplace_returns_self']),
+            eq('conv.second_copy_unaffected_by_mutating_the_first', rec['again_value'], v * f, tol=1e-12),
+            holds('conv.second_copy_unit', rec['again_unit'] == self.u2, info=rec['again_unit']),
+            eq('conv.original_untouched_by_its_copies', rec['orig_value_after_all'], v),
+            holds('conv.original_unit_untouched_by_its_copies', rec['orig_unit_after_all'] == self.u1),
             eq('conv.inplace_then_copy', rec['chain_copy_value'],
                v * z3.RealVal(si.SI[self.kind][self.u1] / si.SI[self.kind][self.u3]), tol=1e-12),
             holds('conv.inplace_then_copy_unit', rec['chain_copy_unit'] == self.u3),
